@@ -222,6 +222,10 @@ def _map_pair(ctx, ty, dk, extras):
                 ok, why = False, "unrecognised omission guard %s" % g
             ctx.ob("R-2", "omit-iff-reject:%s.%d.%s" % (ty, k, (x.get("kind") or "?").split("<")[0]), ok,
                    "%s label %d (`%s`): %s" % (ty, k, field, why), where=e.span, detail={"guard": x["guard"], "decoder_presence": presence})
+    muts = [m for m in me.self_mutations if not (m[0] == "counter_signatures" and m[1] == codec.VEC_REMOVE and m[2] == ["0"])]
+    if muts:
+        problems.append("the encoder mutates %s before emitting it (%s): decoded order / content is not what is written" % (
+            sorted({m[0] for m in muts}), sorted({m[1].split("::")[-1] for m in muts})))
     # extras
     loops = [x for x in me.entries if x.get("loop") is not None]
     dflt = []
